@@ -144,6 +144,35 @@ pub fn gen(tier: &str, rng: &mut Rng, emit: &mut dyn FnMut(String)) {
         emit(format!("pfx {} {}", hex(a.as_bytes()), hex(b"")));
         emit(format!("pfx {} {}", hex(b.as_bytes()), hex(b"/x")));
     }
+    // word-at-a-time scanning mistakes: neighbour bytes of the structural bytes at every alignment; the partner differs inside the
+    // last token, is the parent, or has one more token
+    for p in swar_pointers() {
+        let mut q1 = p.clone();
+        q1.pop();
+        q1.push('Q');
+        let parent = &p[..p.rfind('/').unwrap_or(0)];
+        let longer = format!("{p}/z");
+        let mut q2 = p.clone();                 // differs in the second byte of the last token
+        if let Some(k) = p.rfind('/') {
+            if k + 2 < p.len() && p.is_char_boundary(k + 2) && p.is_char_boundary(k + 3) {
+                q2.replace_range(k + 2..k + 3, "Q");
+            }
+        }
+        for (a, b) in [(&p, &q1), (&p, &q2), (&q2, &p), (&p, &parent.to_string()), (&longer, &p), (&p, &p), (&longer, &q2)] {
+            emit(format!("pfx {} {}", hex(a.as_bytes()), hex(b.as_bytes())));
+        }
+    }
+    // differences that cancel when a block comparison folds its words with xor: the same edit at the same offset mod 8 / 16 / 32
+    for (i, (b, q)) in periodic_pairs().into_iter().enumerate() {
+        if tier != "thorough" && i % 2 == 1 {
+            continue;
+        }
+        let bt = format!("{b}/tail");
+        let db = format!("/data{b}");
+        for (x, y) in [(&bt, &q), (&b, &q), (&db, &q), (&q, &b)] {
+            emit(format!("pfx {} {}", hex(x.as_bytes()), hex(y.as_bytes())));
+        }
+    }
     // two pointers byte-identical for exactly a block of 2^k bytes, then '/' in one and a token byte in the other
     for k in 10..=17u32 {
         let block = 1usize << k;
